@@ -11,6 +11,7 @@ import PrefVerif.Driver.ILP
 import PrefVerif.Driver.ELO
 import PrefVerif.Driver.KAlt
 import PrefVerif.Driver.Euclid2
+import PrefVerif.Driver.PQ
 open Lean PrefVerif.Driver
 
 def handlers : List (String × Handler) := [
@@ -42,7 +43,9 @@ def handlers : List (String × Handler) := [
   ("kalt.sets", KAltD.sets),
   ("euc.lp", Euclid2.lp),
   ("kalt.bf", KAltD.bruteForce),
-  ("kalt.spc", KAltD.spc)
+  ("kalt.spc", KAltD.spc),
+  ("pq.reorder", PQ.reorder),
+  ("pq.solve", PQ.solve)
 ]
 
 def dispatch (j : Json) : Json :=
